@@ -289,6 +289,36 @@ fn run_case(rt: &tokio::runtime::Runtime, c: &J) -> J {
                         Err(e) => json!({"stage": "refused_next", "t1": t1, "wire": hex(&wire), "why": e}),
                     }
                 }
+                // connector side of an HTTP / QUIC hop: h11c_connect reads the upstream's reply (incl. Session-Id for UDP)
+                "h11c" => {
+                    let input = unhex(c["hex"].as_str().unwrap());
+                    let gs: Arc<crate::context::GlobalState> = Default::default();
+                    let ctx = gs.create_context("l".into(), "127.0.0.1:1".parse().unwrap()).await;
+                    ctx.write().await.set_target(TargetAddress::DomainPort("ex.com".into(), 53));
+                    if c["udp"].as_bool().unwrap_or(false) {
+                        ctx.write().await.set_feature(crate::context::Feature::UdpForward);
+                    }
+                    let (io, _log) = ScriptIo::new(input, &segs_of(c));
+                    let server = crate::context::make_buffered_stream(io);
+                    let r = crate::common::h11c::h11c_connect(server, ctx, "127.0.0.1:2".parse().unwrap(), "127.0.0.1:3".parse().unwrap(),
+                        "inline", |_| async { panic!("not used") }).await;
+                    match r {
+                        Ok(()) => json!({"out": "ok"}),
+                        Err(e) => json!({"out": "err", "parsed": e.to_string()}),
+                    }
+                }
+                // datagram side of a QUIC hop: a sequence of datagrams into the reassembler
+                "frag_seq" => {
+                    let mut f: crate::common::fragment::Fragments<Frame> = crate::common::fragment::Fragments::new(std::time::Duration::from_secs(5));
+                    let mut n = 0;
+                    for d in c["datagrams"].as_array().unwrap() {
+                        if f.reassemble(Bytes::from(unhex(d.as_str().unwrap()))).is_some() {
+                            n += 1;
+                        }
+                        f.timer();
+                    }
+                    json!({"out": "ok", "parsed": n})
+                }
                 x => json!({"out": format!("unknown op {}", x)}),
             }
         })
